@@ -1,6 +1,6 @@
 """C09 - exception safety: basic guarantee everywhere, strong where documented."""
 from .. import matrix
-from ..rules import lifetime, callgraph, ownership
+from ..rules import lifetime, callgraph, ownership, closer
 
 
 def run(tier, runner):
@@ -20,6 +20,8 @@ def run(tier, runner):
     r_blk = ownership.block(progs + tm + real)
     r_rt = lifetime.rethrow(progs + tm + real)
     r_rt.require(10, 'catch handlers in amc')
+    r_cl = closer.closer(progs + real)
+    r_cl.require(4, 'roll-back helper overloads (shift_left, unshift_right x relocatable or not)')
     ob['HOLE'].require(4, 'functions that open slots with shift_right')
     ob['TEMP'].require(2, 'functions that build an element in a local ElemStorage')
     ob['RAWTAIL'].require(30, 'functions that construct into raw storage')
@@ -28,7 +30,7 @@ def run(tier, runner):
     r_blk.require(3, 'functions that hold a fresh block in a local variable (Reallocate, SmallVectorBase::grow, amc::allocator reallocate)')
     r_tr.require(60, 'amc functions whose exception specification evaluates to noexcept(true)')
     return {
-        'results': [ob['HOLE'], ob['TEMP'], ob['RAWTAIL'], r_strong, r_tail, r_tr, r_blk, r_rt],
+        'results': [ob['HOLE'], ob['TEMP'], ob['RAWTAIL'], r_strong, r_tail, r_tr, r_blk, r_rt, r_cl],
         'explanation': 'Typestate analysis on the structured body of every function of the vector layer and of memory.hpp, per instantiation. '
                        'The may-throw points are exactly the calls from whose resolved callee a throw source (throw expression, allocator request, '
                        'element operation not declared noexcept) is reachable without crossing a noexcept(true) function - the same set the k-th '
@@ -39,7 +41,8 @@ def run(tier, runner):
                        'STRONG: in the operations documented as strong nothing observable is modified before the last may-throw call (roll-back '
                        'handlers excepted); THROW-REACH: no noexcept(true) amc function reaches a throw source (an exception the property expects '
                        'to propagate would become std::terminate); BLOCK: a block obtained from the allocator into a local variable is owned (member store, '
-                       'setDyn, return) or given back on every exit, exceptional successors of may-throw calls included (no memory block is leaked); RETHROW: every catch handler of amc leaves by re-throwing on every path.',
+                       'setDyn, return) or given back on every exit, exceptional successors of may-throw calls included (no memory block is leaked); RETHROW: every catch handler of amc leaves by re-throwing on every path; CLOSER: the roll-back helpers named by HOLE are interpreted '
+                       'symbolically (linear forms over first, n, count; case split on their order) and must be the exact inverse of shift_right.',
         'assumptions': ['STRONG is evaluated for element types whose moves are noexcept (the documented precondition); the basic-guarantee rules also '
                         'run on NTRtm (throwing moves), where six known findings remain (F20)',
                         'destructors do not throw; a second exception thrown by a roll-back handler is outside the single-fault quantifier', 'the basic guarantee of std::sort/inplace_merge/unique inside FlatSet bulk paths is trusted to libstdc++',
